@@ -17,6 +17,7 @@ import (
 	"os"
 	"sort"
 	"strconv"
+	"strings"
 	"sync"
 	"testing"
 	"time"
@@ -282,11 +283,20 @@ func loadCase(path string) (*Case, error) {
 func runChecked(p *Prop, c *Case, r *Rec) (err error) {
 	defer func() {
 		if x := recover(); x != nil {
+			if msg, ok := x.(string); ok && strings.HasPrefix(msg, "HARNESS-ERROR") {
+				err = harnessError(msg)
+				return
+			}
 			err = violation("", "panic during check: %v", x)
 		}
 	}()
 	return p.Check(c, r)
 }
+
+// harnessError marks failures of the machinery itself (never a violation).
+type harnessError string
+
+func (h harnessError) Error() string { return string(h) }
 
 // runProp is the body of every TestCxx.
 func runProp(t *testing.T, id string) {
@@ -336,6 +346,9 @@ func runProp(t *testing.T, id string) {
 		c.Prop = id
 		rec.Eval()
 		if err := runChecked(p, c, rec); err != nil {
+			if _, ok := err.(harnessError); ok {
+				rt.Fatalf("%v", err)
+			}
 			saveReplay(c, err)
 			rt.Fatalf("%s violated: %v\nspec: %v\ninput: %q", id, err, c.Spec, string(c.Input))
 		}
